@@ -140,9 +140,20 @@ ENTROPY_CALLS = {
     "tempfile.NamedTemporaryFile": "E_random", "tempfile.TemporaryDirectory": "E_random",
     "tempfile.TemporaryFile": "E_random", "tempfile.gettempdir": "E_env_read",
     "requests.get": "E_network", "urllib.request.urlopen": "E_network", "requests.post": "E_network",
+    # environment: working directory, home, variables, terminal, locale, time zone
+    "os.getcwdb": "E_env_read", "pathlib.Path.cwd": "E_env_read", "pathlib.Path.home": "E_env_read",
+    "os.path.expanduser": "E_env_read", "os.path.expandvars": "E_env_read", "os.getenvb": "E_env_read",
+    "os.get_terminal_size": "E_env_read", "shutil.get_terminal_size": "E_env_read", "os.getuid": "E_env_read",
+    "os.geteuid": "E_env_read", "os.getgid": "E_env_read", "os.umask": "E_env_read", "sys.getfilesystemencoding": "E_locale",
+    "sys.getdefaultencoding": "E_locale", "time.tzset": "E_env_read", "time.mktime": "E_time", "time.strptime": "E_locale",
+    "datetime.datetime.fromtimestamp": "E_env_read", "datetime.date.fromtimestamp": "E_env_read",
+    "datetime.datetime.astimezone": "E_env_read", "datetime.datetime.strptime": "E_locale", "platform.system": "E_env_read", "platform.machine": "E_env_read",
+    "platform.python_version": "E_env_read", "platform.uname": "E_env_read", "sys.getrecursionlimit": "E_env_read",
 }
-ENTROPY_PREFIXES = {"random.": "E_random", "numpy.random.": "E_random", "uuid.": "E_random", "secrets.": "E_random"}
-ENTROPY_METHODS = {"iterdir": "E_fs_order", "glob": "E_fs_order", "rglob": "E_fs_order"}
+ENTROPY_PREFIXES = {"random.": "E_random", "numpy.random.": "E_random", "uuid.": "E_random", "secrets.": "E_random", "locale.": "E_locale"}
+ENTROPY_METHODS = {"iterdir": "E_fs_order", "glob": "E_fs_order", "rglob": "E_fs_order", "expanduser": "E_env_read", "strftime": "E_locale", "astimezone": "E_env_read"}
+# attribute reads (no call) that deliver an environment value
+ENTROPY_ATTRS = {"time.timezone": "E_env_read", "time.tzname": "E_env_read", "time.altzone": "E_env_read", "time.daylight": "E_env_read", "sys.platform": "E_env_read", "os.name": "E_env_read", "sys.byteorder": "E_env_read", "sys.maxsize": "E_env_read", "sys.executable": "E_env_read", "sys.prefix": "E_env_read", "sys.version": "E_env_read", "sys.version_info": "E_env_read", "sys.argv": "E_env_read"}
 SET_RETURNING_METHODS = {"union", "intersection", "difference", "symmetric_difference"}
 ORDER_INSENSITIVE_CONSUMERS = {"builtins.len", "builtins.any", "builtins.all", "builtins.set", "builtins.frozenset", "builtins.bool", "builtins.isinstance", "builtins.type"}
 ORDER_SENSITIVE_CONSUMERS = {
@@ -161,7 +172,7 @@ SURV_KINDS = {
 }
 ENTROPY_KINDS = {
     "E_set_iteration", "E_set_pop", "E_set_repr", "E_random", "E_time", "E_pid", "E_id", "E_hash", "E_fs_order",
-    "E_env_read", "E_network",
+    "E_env_read", "E_network", "E_fs_cwd", "E_locale",
 }
 
 
@@ -1354,6 +1365,27 @@ def scan_process_and_entropy(w: World, S: dict, an: Analysis, inside):
                 if ek is not None:
                     eid = uniq(f"{ctx}:{ek}:{ref or n.func.attr}")
                     E[eid] = Entropy(eid, ek, rel(w, m, n.lineno), ast.unparse(n)[:80], False)
+                # text-mode open()/read_text()/write_text() without encoding=: bytes <-> str through the LOCALE's encoding
+                is_open = ref in ("builtins.open", "io.open", "codecs.open") or (isinstance(n.func, ast.Attribute) and (ref is None or ref.startswith("pathlib.")) and n.func.attr in ("open", "read_text", "write_text"))
+                if is_open and not any(k.arg == "encoding" for k in n.keywords) and not any(k.arg is None for k in n.keywords):
+                    named = ref in ("builtins.open", "io.open", "codecs.open")
+                    mode_pos = 1 if named else 0
+                    mode = None
+                    if n.func.attr in ("read_text", "write_text") if isinstance(n.func, ast.Attribute) and not named else False:
+                        mode = "t"
+                        enc_pos = 0 if n.func.attr == "read_text" else 1
+                    else:
+                        enc_pos = 3 if named else 2
+                        mexpr = n.args[mode_pos] if len(n.args) > mode_pos else next((k.value for k in n.keywords if k.arg == "mode"), None)
+                        if mexpr is None:
+                            mode = "r"
+                        elif isinstance(mexpr, ast.Constant) and isinstance(mexpr.value, str):
+                            mode = mexpr.value
+                        else:
+                            mode = "?"
+                    if "b" not in mode and len(n.args) <= enc_pos and (named or n.func.attr != "open" or not n.args or isinstance(n.args[0], ast.Constant)):
+                        eid = uniq(f"{ctx}:E_locale:open-without-encoding")
+                        E[eid] = Entropy(eid, "E_locale", rel(w, m, n.lineno), "text-mode file opened without encoding=: " + ast.unparse(n)[:70], False)
                 if isinstance(n.func, ast.Attribute):
                     meth = n.func.attr
                     bref = w.resolve(n.func.value, m, loc)
@@ -1400,6 +1432,10 @@ def scan_process_and_entropy(w: World, S: dict, an: Analysis, inside):
                     r = w.resolve(b, m, loc) if isinstance(b, (ast.Name, ast.Attribute)) else None
                     if r in PROCESS_GLOBAL_OBJECTS and (isinstance(t, ast.Subscript) or isinstance(t, ast.Attribute)):
                         write(surv(f"process:{r}", "process_global", rel(w, m, n.lineno), "interpreter-wide object"), "assignment")
+            elif isinstance(n, ast.Attribute) and isinstance(n.ctx, ast.Load) and w.resolve(n, m, loc) in ENTROPY_ATTRS:
+                r = w.resolve(n, m, loc)
+                eid = uniq(f"{ctx}:{ENTROPY_ATTRS[r]}:{r}")
+                E[eid] = Entropy(eid, ENTROPY_ATTRS[r], rel(w, m, n.lineno), f"reads {r}", False)
             elif isinstance(n, ast.Subscript) and isinstance(n.ctx, ast.Load):
                 if w.resolve(n.value, m, loc) == "os.environ":
                     eid = uniq(f"{ctx}:E_env_read:os.environ[]")
@@ -1573,6 +1609,653 @@ def scan_set_iteration(w: World, E: dict):
 
 
 # ---------------------------------------------------------------------------
+# file-system accesses and the provenance of their paths (E_fs_cwd)
+#
+# Rule (notes/C11.md "environment sites"): a file-system access is fine when
+# its path is PROVABLY derived from
+#   (a) a path-carrying command-line option (`args.<dest>` with <dest> on the
+#       reviewed list "path_options") or a parameter of a function nobody in
+#       the package calls (public entry point: the caller hands in the path), or
+#   (b) the package directory (`__file__`, importlib.resources).
+# Everything else - a path whose LEADING component is a literal, a bare file
+# name (.stem/.name/basename), an option that is a name and not a path
+# (--ff), an environment value, or anything the scan cannot interpret - is
+# resolved by the OS relative to the process's current working directory (or
+# is otherwise supplied by the environment) and is listed as an E_fs_cwd site
+# at the place where that value enters.  A path built from a parameter is
+# judged at the call sites (transitively), a parameter default at the def.
+
+FS_FUNCS = {
+    # ref -> indices of the path arguments
+    "builtins.open": (0,), "io.open": (0,), "codecs.open": (0,), "os.open": (0,), "gzip.open": (0,), "bz2.open": (0,),
+    "lzma.open": (0,), "os.stat": (0,), "os.lstat": (0,), "os.access": (0,), "os.remove": (0,), "os.unlink": (0,),
+    "os.mkdir": (0,), "os.makedirs": (0,), "os.rmdir": (0,), "os.removedirs": (0,), "os.listdir": (0,), "os.scandir": (0,),
+    "os.walk": (0,), "os.chmod": (0,), "os.utime": (0,), "os.readlink": (0,), "os.rename": (0, 1), "os.replace": (0, 1),
+    "os.link": (0, 1), "os.symlink": (0, 1), "os.truncate": (0,), "os.chdir": (0,),
+    "os.path.exists": (0,), "os.path.lexists": (0,), "os.path.isfile": (0,), "os.path.isdir": (0,), "os.path.islink": (0,),
+    "os.path.getsize": (0,), "os.path.getmtime": (0,), "os.path.getatime": (0,), "os.path.getctime": (0,),
+    "os.path.samefile": (0, 1), "os.path.abspath": (0,), "os.path.realpath": (0,), "os.path.ismount": (0,),
+    "glob.glob": (0,), "glob.iglob": (0,), "shutil.copy": (0, 1), "shutil.copy2": (0, 1), "shutil.copyfile": (0, 1),
+    "shutil.copytree": (0, 1), "shutil.move": (0, 1), "shutil.rmtree": (0,), "shutil.which": (0,),
+    "numpy.loadtxt": (0,), "numpy.load": (0,), "numpy.save": (0,), "numpy.savetxt": (0,), "numpy.genfromtxt": (0,),
+    "numpy.fromfile": (0,), "pandas.read_csv": (0,), "pandas.read_table": (0,), "pandas.read_json": (0,),
+    "pandas.read_excel": (0,), "pandas.read_pickle": (0,), "xml.sax.parse": (0,), "xml.etree.ElementTree.parse": (0,),
+    "xml.dom.minidom.parse": (0,), "logging.FileHandler": (0,), "sqlite3.connect": (0,), "zipfile.ZipFile": (0,),
+    "tarfile.open": (0,), "fileinput.input": (0,), "linecache.getline": (0,), "linecache.getlines": (0,),
+    "configparser.ConfigParser.read": (0,), "subprocess.run": (0,), "subprocess.Popen": (0,), "subprocess.call": (0,),
+    "subprocess.check_output": (0,), "subprocess.check_call": (0,), "os.system": (0,), "os.popen": (0,),
+}
+FS_KW = {"logging.basicConfig": ("filename",), "subprocess.run": ("cwd",), "subprocess.Popen": ("cwd",)}
+FS_PATH_METHODS = {
+    "is_file", "exists", "is_dir", "is_symlink", "is_mount", "read_text", "read_bytes", "write_text", "write_bytes",
+    "stat", "lstat", "mkdir", "touch", "unlink", "rmdir", "iterdir", "glob", "rglob", "resolve", "absolute", "samefile",
+    "chmod", "open", "hardlink_to", "symlink_to", "readlink", "expanduser",
+}
+FS_PATH_METHODS_1ARG = {"rename", "replace"}  # Path.rename(target) - str.replace takes two arguments
+PKG_CALLS = {
+    "importlib.resources.files", "importlib.resources.path", "importlib.resources.as_file", "importlib.resources.open_text",
+    "importlib.resources.open_binary", "importlib.resources.read_text", "importlib.resources.read_binary",
+    "importlib_resources.files", "pkg_resources.resource_filename", "pkg_resources.resource_stream", "pkgutil.get_data",
+    "inspect.getfile", "inspect.getsourcefile",
+}
+ENV_PATH_CALLS = {
+    "os.getcwd", "os.getcwdb", "pathlib.Path.cwd", "pathlib.Path.home", "os.path.expanduser", "os.path.expandvars",
+    "os.getenv", "tempfile.gettempdir", "tempfile.mkdtemp", "tempfile.mkstemp", "tempfile.mktemp", "os.path.curdir",
+}
+PATH_JOINERS = {"pathlib.Path", "pathlib.PurePath", "pathlib.PosixPath", "pathlib.PurePosixPath", "os.path.join", "os.fspath", "os.path.normpath", "os.path.normcase", "builtins.str", "os.fsdecode", "os.fsencode"}
+PATH_KEEP_DIR = {"os.path.dirname", "os.path.splitext", "os.path.split", "os.path.splitdrive", "os.path.commonpath", "os.path.commonprefix"}
+PATH_BARE = {"os.path.basename"}
+UNION_CALLS = {
+    "builtins.list", "builtins.tuple", "builtins.set", "builtins.frozenset", "builtins.sorted", "builtins.reversed",
+    "builtins.iter", "builtins.next", "builtins.min", "builtins.max", "builtins.dict", "builtins.filter", "builtins.map",
+    "builtins.zip", "builtins.enumerate", "itertools.chain", "itertools.product", "copy.copy", "copy.deepcopy", "builtins.repr",
+    "builtins.format", "builtins.getattr",
+}
+NONPATH_CALLS = {
+    "builtins.len", "builtins.int", "builtins.float", "builtins.bool", "builtins.round", "builtins.abs", "builtins.sum",
+    "builtins.range", "builtins.isinstance", "builtins.hasattr", "builtins.any", "builtins.all", "builtins.ord", "builtins.chr",
+    "builtins.print", "builtins.type", "builtins.id", "builtins.hash", "builtins.divmod", "builtins.pow", "builtins.callable",
+    "builtins.open", "io.open", "io.StringIO", "io.BytesIO", "logging.getLogger",
+}
+STR_METHODS_KEEP = {
+    "upper", "lower", "strip", "lstrip", "rstrip", "title", "capitalize", "casefold", "swapcase", "replace", "format",
+    "encode", "decode", "expandtabs", "zfill", "ljust", "rjust", "center", "removeprefix", "removesuffix", "with_suffix",
+    "with_name", "with_stem", "resolve", "absolute", "expanduser", "as_posix", "joinpath", "relative_to", "copy", "split",
+    "rsplit", "splitlines", "partition", "rpartition", "get", "pop", "items", "values", "keys", "__getitem__", "setdefault",
+    "as_uri", "__fspath__", "__str__", "join",
+}
+PATH_ATTR_KEEP = {"parent", "parents", "anchor", "drive", "root", "parts"}
+PATH_ATTR_BARE = {"stem", "name", "suffix", "suffixes"}
+
+T_PKG, T_LIT = ("PKG",), ("LIT",)
+GOOD_TAGS = {"PKG", "P", "OPT"}
+
+
+def anchored(o) -> bool:
+    return bool(o) and all(t[0] in GOOD_TAGS for t in o)
+
+
+def lead(parts):
+    """Origins of a path/str built from `parts` in order: the leading
+    component decides what a relative remainder is resolved against."""
+    parts = [p for p in parts if p is not None]
+    for p in parts:
+        if not p:
+            continue  # contributes nothing (empty string, number, None)
+        if anchored(p):
+            return set(p)
+        break
+    out = set()
+    for p in parts:
+        out |= p
+    return out
+
+
+def collect_arg_dests(w: World):
+    dests = {}
+    for m in w.mods.values():
+        for n in ast.walk(m.tree):
+            if isinstance(n, ast.Call) and isinstance(n.func, ast.Attribute) and n.func.attr == "add_argument":
+                flags = [a.value for a in n.args if isinstance(a, ast.Constant) and isinstance(a.value, str)]
+                dest = None
+                for k in n.keywords:
+                    if k.arg == "dest" and isinstance(k.value, ast.Constant):
+                        dest = k.value.value
+                if dest is None and flags:
+                    longs = [x for x in flags if x.startswith("--")]
+                    pick = longs[0] if longs else flags[0]
+                    dest = pick.lstrip("-").replace("-", "_")
+                if dest:
+                    dests.setdefault(dest, []).append(rel(w, m, n.lineno))
+    return dests
+
+
+class ProvWorld:
+    def __init__(self, w: World, dests):
+        self.w, self.dests = w, dests
+        self.ret = {f.fid: set() for f in w.funcs}
+        self.attr = {}  # attribute name -> origins stored under it anywhere
+        self.modenv = {}  # "mod.name" -> origins
+        self.sinks = {}  # key -> record
+        self.bindings = {}  # (callee fid, param) -> {key: (ctx, where, origins, text)}
+        self.omitted = set()  # (callee fid, param) omitted by some call
+        self.called = set()  # fids with at least one call site in the package
+        self.defaults = {}  # (fid, param) -> (origins, where, text)
+
+    def sig(self):
+        return (
+            tuple(sorted((k, tuple(sorted(v))) for k, v in self.ret.items())),
+            tuple(sorted((k, tuple(sorted(v))) for k, v in self.attr.items())),
+            tuple(sorted((k, tuple(sorted(v))) for k, v in self.modenv.items())),
+        )
+
+
+class ProvWalk:
+    """Flow-sensitive (strong update on straight-line code, weak inside
+    branches and loops) evaluation of where path-like values come from."""
+
+    def __init__(self, pw: ProvWorld, f: Func | None, mod: Mod):
+        self.pw, self.w, self.f, self.mod = pw, pw.w, f, mod
+        self.env = {}
+        self.depth = 0
+        self.ctx = f.fid if f is not None else f"{mod.name}:<module>"
+        if f is not None:
+            self.local_names = frozenset(f.locals | f.outer_locals)
+            for p in f.params:
+                self.env[p] = {("P", f.fid, p)}
+        else:
+            self.local_names = frozenset()
+
+    # ---- expressions
+    def O(self, e):  # noqa: N802, E743
+        pw = self.pw
+        if e is None:
+            return set()
+        if isinstance(e, ast.Constant):
+            if isinstance(e.value, (str, bytes)) and e.value != "" and e.value != b"":
+                return {T_LIT}
+            return set()
+        if isinstance(e, ast.Name):
+            if e.id == "__file__":
+                return {T_PKG}
+            if e.id in self.env:
+                return set(self.env[e.id])
+            if self.f is not None and e.id in self.f.locals:
+                return set()  # bound later / never to a path-like value
+            if self.f is not None and e.id in self.f.outer_locals:
+                return {("UNK", f"closure variable {e.id}")}
+            ref = self.w.resolve(e, self.mod, self.local_names)
+            return self.global_origins(ref, e.id)
+        if isinstance(e, ast.Attribute):
+            ref = self.w.resolve(e, self.mod, self.local_names)
+            if ref is not None and (ref in pw.modenv or ref.rsplit(".", 1)[0] in self.w.mods):
+                return self.global_origins(ref, e.attr)
+            if ref in ENV_PATH_CALLS:
+                return {("ENV", ref)}
+            base = self.O(e.value)
+            if e.attr in PATH_ATTR_KEEP:
+                return base
+            out = set()
+            if e.attr in PATH_ATTR_BARE and base:
+                out.add(("REL", f".{e.attr} of a path (bare file name)"))
+            if e.attr in pw.dests:
+                out.add(("OPT", e.attr))
+            out |= pw.attr.get(e.attr, set())
+            if not out and ref is None:
+                out.add(("UNK", f"attribute .{e.attr} never assigned in the package"))
+            elif not out:
+                out.add(("UNK", f"external object {ref}"))
+            return out
+        if isinstance(e, ast.JoinedStr):
+            return lead([self.O(v.value) if isinstance(v, ast.FormattedValue) else self.O(v) for v in e.values])
+        if isinstance(e, ast.FormattedValue):
+            return self.O(e.value)
+        if isinstance(e, ast.BinOp):
+            l, r = self.O(e.left), self.O(e.right)
+            if isinstance(e.op, (ast.Add, ast.Div)):
+                return lead([l, r])
+            if isinstance(e.op, ast.Mod):  # "fmt" % values
+                return l | r
+            return l | r
+        if isinstance(e, ast.BoolOp):
+            out = set()
+            for v in e.values:
+                out |= self.O(v)
+            return out
+        if isinstance(e, ast.IfExp):
+            self.O(e.test)
+            return self.O(e.body) | self.O(e.orelse)
+        if isinstance(e, ast.NamedExpr):
+            o = self.O(e.value)
+            self.assign(e.target, o)
+            return o
+        if isinstance(e, (ast.List, ast.Tuple, ast.Set)):
+            out = set()
+            for x in e.elts:
+                out |= self.O(x.value if isinstance(x, ast.Starred) else x)
+            return out
+        if isinstance(e, ast.Dict):
+            out = set()
+            for k, v in zip(e.keys, e.values):
+                self.O(k)
+                out |= self.O(v)
+            return out
+        if isinstance(e, ast.Subscript):
+            self.O(e.slice)
+            return self.O(e.value)
+        if isinstance(e, ast.Starred):
+            return self.O(e.value)
+        if isinstance(e, (ast.ListComp, ast.SetComp, ast.GeneratorExp, ast.DictComp)):
+            saved = self.depth
+            self.depth += 1
+            for g in e.generators:
+                self.assign(g.target, self.O(g.iter))
+                for c in g.ifs:
+                    self.O(c)
+            if isinstance(e, ast.DictComp):
+                self.O(e.key)
+                out = self.O(e.value)
+            else:
+                out = self.O(e.elt)
+            self.depth = saved
+            return out
+        if isinstance(e, ast.Lambda):
+            saved = self.depth
+            self.depth += 1
+            self.O(e.body)
+            self.depth = saved
+            return set()
+        if isinstance(e, ast.Call):
+            return self.call(e)
+        if isinstance(e, (ast.Compare, ast.UnaryOp)):
+            for c in ast.iter_child_nodes(e):
+                if isinstance(c, ast.expr):
+                    self.O(c)
+            return set()
+        if isinstance(e, (ast.Await, ast.Yield, ast.YieldFrom)):
+            o = self.O(e.value) if e.value is not None else set()
+            if self.f is not None and not isinstance(e, ast.Await):
+                self.pw.ret[self.f.fid] |= o
+            return o
+        for c in ast.iter_child_nodes(e):
+            if isinstance(c, ast.expr):
+                self.O(c)
+        return set()
+
+    def global_origins(self, ref, shown):
+        pw = self.pw
+        if ref is None:
+            return {("UNK", f"unresolved name {shown}")}
+        if ref in pw.modenv:
+            return set(pw.modenv[ref])
+        if ref in ENV_PATH_CALLS:
+            return {("ENV", ref)}
+        if ref in ("os.environ", "os.environb", "sys.argv"):
+            return {("ENV", ref)}
+        if ref in ("os.curdir", "os.pardir", "os.sep", "os.path.sep", "os.devnull", "os.linesep"):
+            return {T_LIT} if ref in ("os.curdir", "os.pardir") else set()
+        if ref in self.w.mods or ref in self.w.classes or ref in self.w.func_by_id or ref.startswith("builtins."):
+            return set()
+        head, _, last = ref.rpartition(".")
+        if head in self.w.mods:
+            return set()  # module-level name bound to something that is not path-like (seen by the module walk)
+        return {("UNK", f"external object {ref}")}
+
+    def bind_args(self, call, g: Func, off):
+        """[(param, arg expr)] for a call reaching g; omitted params with defaults are recorded."""
+        bound = {}
+        star = False
+        for i, a in enumerate(call.args):
+            if isinstance(a, ast.Starred):
+                star = True
+                continue
+            if i + off < len(g.pos):
+                bound[g.pos[i + off]] = a
+        for k in call.keywords:
+            if k.arg is None:
+                star = True
+            elif k.arg in g.params:
+                bound[k.arg] = k.value
+        return bound, star
+
+    def call(self, call):
+        pw, w = self.pw, self.w
+        fw = FuncWalk.__new__(FuncWalk)
+        fw.w, fw.mod, fw.local_names = w, self.mod, self.local_names
+        cands, ref = FuncWalk.candidates(fw, call)
+        argo = [self.O(a.value if isinstance(a, ast.Starred) else a) for a in call.args]
+        kwo = {k.arg: self.O(k.value) for k in call.keywords}
+        recv = None
+        meth = None
+        if isinstance(call.func, ast.Attribute):
+            meth = call.func.attr
+            if ref is None or not (ref in w.func_by_id or ref in w.classes):
+                recv = self.O(call.func.value)
+        elif not isinstance(call.func, ast.Name):
+            self.O(call.func)
+        where = rel(w, self.mod, call.lineno)
+        # --- sinks
+        if ref in FS_FUNCS:
+            for i in FS_FUNCS[ref]:
+                if i < len(call.args):
+                    self.sink(call, ref, argo[i], ast.unparse(call.args[i]))
+                elif i == 0 and call.keywords and call.keywords[0].arg in ("file", "path", "name", "filename", "src"):
+                    self.sink(call, ref, kwo[call.keywords[0].arg], ast.unparse(call.keywords[0].value))
+        if ref in FS_KW:
+            for kw in FS_KW[ref]:
+                if kw in kwo:
+                    self.sink(call, f"{ref}({kw}=)", kwo[kw], ast.unparse([k.value for k in call.keywords if k.arg == kw][0]))
+        is_pkg_callee = ref in w.func_by_id or ref in w.classes
+        if meth is not None and not is_pkg_callee and (ref is None or ref.startswith("pathlib.")):
+            if meth in FS_PATH_METHODS or (meth in FS_PATH_METHODS_1ARG and len(call.args) == 1 and not call.keywords):
+                # a method of this name on a file object / unrelated class is not a path access:
+                # only receivers that are path-like (some origin) or not understood at all are sinks
+                r = recv if recv is not None else set()
+                own = [g for g, off in cands if off == 1]
+                if r or not own:
+                    if meth == "open" and not r:
+                        r = {("UNK", f"receiver of .open() not understood: {ast.unparse(call.func.value)[:40]}")}
+                    if r:
+                        self.sink(call, f"Path.{meth}", r, ast.unparse(call.func.value))
+                    if meth in FS_PATH_METHODS_1ARG and argo:
+                        self.sink(call, f"Path.{meth}(target)", argo[0], ast.unparse(call.args[0]))
+        # --- package callees: record bindings, substitute returns
+        result = set()
+        for g, off in cands:
+            pw.called.add(g.fid)
+            bound, star = self.bind_args(call, g, off)
+            osub = {}
+            for q, a in bound.items():
+                o = self.O(a) if a not in call.args else argo[call.args.index(a)]
+                osub[q] = o
+                key = (self.ctx, where, ast.unparse(a)[:60])
+                pw.bindings.setdefault((g.fid, q), {})[key] = (self.ctx, where, set(o), ast.unparse(a)[:60])
+            for q in g.params[off:]:
+                if q not in bound and not star:
+                    pw.omitted.add((g.fid, q))
+            if star:
+                for q in g.params[off:]:
+                    if q not in bound:
+                        key = (self.ctx, where, "*args/**kwargs")
+                        pw.bindings.setdefault((g.fid, q), {})[key] = (self.ctx, where, {("UNK", "passed through *args/**kwargs")}, "*args/**kwargs")
+            if off == 1 and recv is not None and g.pos:
+                osub[g.pos[0]] = recv
+            for t in pw.ret.get(g.fid, ()):
+                if t[0] == "P" and t[1] == g.fid:
+                    if t[2] in osub:
+                        result |= osub[t[2]]
+                    elif (g.fid, t[2]) in pw.defaults:
+                        result |= pw.defaults[(g.fid, t[2])][0]
+                else:
+                    result.add(t)
+        if cands:
+            return result
+        # --- external / builtin callees
+        if ref in PKG_CALLS:
+            return {T_PKG}
+        if ref in ENV_PATH_CALLS:
+            return {("ENV", ref)}
+        if ref in PATH_JOINERS:
+            return lead(argo)
+        if ref in PATH_KEEP_DIR:
+            return argo[0] if argo else set()
+        if ref in PATH_BARE:
+            return {("REL", "os.path.basename (bare file name)")} if argo and argo[0] else set()
+        if ref in ("os.path.abspath", "os.path.realpath", "os.path.expanduser", "os.path.expandvars", "os.path.relpath"):
+            return argo[0] if argo else set()
+        if ref == "builtins.getattr" and len(call.args) >= 2 and isinstance(call.args[1], ast.Constant) and isinstance(call.args[1].value, str):
+            fake = ast.Attribute(value=call.args[0], attr=call.args[1].value, ctx=ast.Load())
+            out = self.O(ast.copy_location(fake, call))
+            if len(argo) > 2:
+                out |= argo[2]
+            return out
+        if ref in UNION_CALLS:
+            out = set()
+            for o in argo:
+                out |= o
+            for o in kwo.values():
+                out |= o
+            return out
+        if ref in NONPATH_CALLS or (ref is not None and ref.startswith(("math.", "numpy.", "logging.", "re.", "operator.", "argparse.", "xml.", "datetime.", "propka.", "requests.", "pdbx.", "mmcif_pdbx.", "collections.", "itertools.", "functools.", "textwrap.", "string.", "warnings."))):
+            return set()
+        if meth is not None and (ref is None or not ref.startswith("builtins.")):
+            r = recv if recv is not None else set()
+            if meth == "format":
+                out = set(r)
+                for o in argo:
+                    out |= o
+                for o in kwo.values():
+                    out |= o
+                return out
+            if meth == "join":
+                out = set(r)
+                for o in argo:
+                    out |= o
+                return out
+            if meth == "joinpath":
+                return lead([r] + argo)
+            if meth in ("get", "pop", "setdefault"):
+                out = set(r)
+                for o in argo[1:]:
+                    out |= o
+                return out
+            if meth in ("append", "add", "extend", "insert", "update") and isinstance(call.func.value, ast.Name):
+                add = set()
+                for o in argo:
+                    add |= o
+                if add:
+                    self.env.setdefault(call.func.value.id, set()).update(add)
+                return set()
+            if meth in STR_METHODS_KEEP:
+                return r
+            return set()  # any other method of an object: not a path-like value
+        if ref is None:
+            return set()
+        return {("UNK", f"result of external call {ref}")}
+
+    def sink(self, call, what, origins, text):
+        key = (self.ctx, rel(self.w, self.mod, call.lineno), what, text[:60])
+        rec = self.pw.sinks.setdefault(key, {"ctx": self.ctx, "where": key[1], "what": what, "text": text[:60], "origins": set()})
+        rec["origins"] |= origins if origins else {("UNK", "path expression not understood")}
+
+    # ---- statements
+    def assign(self, t, o, node=None):
+        if isinstance(t, ast.Name):
+            if self.depth == 0:
+                self.env[t.id] = set(o)
+            else:
+                self.env.setdefault(t.id, set()).update(o)
+            if self.f is None:
+                self.pw.modenv.setdefault(f"{self.mod.name}.{t.id}", set()).update(o)
+            elif t.id in self.f.globals_decl:
+                self.pw.modenv.setdefault(f"{self.mod.name}.{t.id}", set()).update(o)
+        elif isinstance(t, (ast.Tuple, ast.List)):
+            for x in t.elts:
+                self.assign(x.value if isinstance(x, ast.Starred) else x, o, node)
+        elif isinstance(t, ast.Attribute):
+            self.O(t.value)
+            if o:
+                self.pw.attr.setdefault(t.attr, set()).update(o)
+        elif isinstance(t, ast.Subscript):
+            self.O(t.slice)
+            if isinstance(t.value, ast.Name):
+                self.env.setdefault(t.value.id, set()).update(o)
+            elif isinstance(t.value, ast.Attribute) and o:
+                self.pw.attr.setdefault(t.value.attr, set()).update(o)
+
+    def block(self, body, weak):
+        if weak:
+            self.depth += 1
+        for s in body:
+            self.stmt(s)
+        if weak:
+            self.depth -= 1
+
+    def stmt(self, s):
+        if isinstance(s, (ast.FunctionDef, ast.AsyncFunctionDef, ast.ClassDef)):
+            return
+        if isinstance(s, ast.Assign):
+            o = self.O(s.value)
+            for t in s.targets:
+                self.assign(t, o, s)
+        elif isinstance(s, ast.AnnAssign):
+            if s.value is not None:
+                self.assign(s.target, self.O(s.value), s)
+        elif isinstance(s, ast.AugAssign):
+            o = self.O(s.value)
+            cur = self.O(ast.copy_location(ast.Name(id=s.target.id, ctx=ast.Load()), s)) if isinstance(s.target, ast.Name) else set()
+            self.assign(s.target, lead([cur, o]) if isinstance(s.op, (ast.Add, ast.Div)) else cur | o, s)
+        elif isinstance(s, (ast.For, ast.AsyncFor)):
+            it = self.O(s.iter)
+            for _ in range(2):
+                self.depth += 1
+                self.assign(s.target, it, s)
+                self.depth -= 1
+                self.block(s.body, True)
+            self.block(s.orelse, True)
+        elif isinstance(s, ast.While):
+            for _ in range(2):
+                self.O(s.test)
+                self.block(s.body, True)
+            self.block(s.orelse, True)
+        elif isinstance(s, ast.If):
+            self.O(s.test)
+            self.block(s.body, True)
+            self.block(s.orelse, True)
+        elif isinstance(s, (ast.With, ast.AsyncWith)):
+            for it in s.items:
+                o = self.O(it.context_expr)
+                if it.optional_vars is not None:
+                    self.assign(it.optional_vars, o, s)
+            self.block(s.body, False)
+        elif isinstance(s, ast.Try) or type(s).__name__ == "TryStar":
+            self.block(s.body, True)
+            for h in s.handlers:
+                self.block(h.body, True)
+            self.block(s.orelse, True)
+            self.block(s.finalbody, True)
+        elif isinstance(s, ast.Return):
+            if s.value is not None and self.f is not None:
+                self.pw.ret[self.f.fid] |= self.O(s.value)
+        elif isinstance(s, ast.Expr):
+            self.O(s.value)
+        elif isinstance(s, (ast.Raise, ast.Assert, ast.Delete)):
+            for c in ast.iter_child_nodes(s):
+                if isinstance(c, ast.expr):
+                    self.O(c)
+        elif isinstance(s, ast.Match):
+            self.O(s.subject)
+            for c in s.cases:
+                self.block(c.body, True)
+        elif isinstance(s, (ast.Global, ast.Nonlocal, ast.Pass, ast.Break, ast.Continue, ast.Import, ast.ImportFrom)):
+            pass
+        else:
+            raise GenError(f"{self.mod.path}:{getattr(s, 'lineno', '?')}: statement {type(s).__name__} not understood")
+
+
+def describe_tag(t):
+    if t[0] == "P":
+        return f"parameter {t[2]} of {t[1]}"
+    if t[0] == "OPT":
+        return f"command-line option {t[1]}"
+    if t[0] == "PKG":
+        return "package directory"
+    if t[0] == "LIT":
+        return "string literal"
+    return f"{t[0].lower()}: {t[1]}"
+
+
+def scan_fs_access(w: World, E: dict, path_options: dict):
+    dests = collect_arg_dests(w)
+    pw = ProvWorld(w, dests)
+    for rnd in range(10):
+        before = pw.sig()
+        pw.sinks, pw.bindings, pw.omitted, pw.called = {}, {}, set(), set()
+        for m in w.mods.values():
+            wk = ProvWalk(pw, None, m)
+            wk.block(m.tree.body, False)
+            for c in m.classes.values():
+                wk.block([s for s in c.node.body if not isinstance(s, (ast.FunctionDef, ast.AsyncFunctionDef, ast.ClassDef))], False)
+        for f in w.funcs:
+            # defaults are evaluated in the defining module's context
+            a = f.node.args
+            pos = a.posonlyargs + a.args
+            pairs = list(zip(pos[len(pos) - len(a.defaults) :], a.defaults)) + [(p, d) for p, d in zip(a.kwonlyargs, a.kw_defaults) if d is not None]
+            dw = ProvWalk(pw, None, f.mod)
+            for p, d in pairs:
+                pw.defaults[(f.fid, p.arg)] = (dw.O(d), rel(w, f.mod, d.lineno), ast.unparse(d)[:60])
+            wk = ProvWalk(pw, f, f.mod)
+            body = f.node.body if isinstance(f.node.body, list) else [ast.Expr(value=f.node.body)]
+            wk.block(body, False)
+        if pw.sig() == before and rnd > 0:
+            break
+    else:
+        raise GenError("path-provenance analysis did not reach a fixpoint in 10 rounds")
+
+    sites = []  # every file-system access with its verdict (evidence)
+    flagged = {}  # (ctx, where, what, why) -> detail
+    counters = {}
+
+    def flag(ctx, where, what, tag, chain):
+        why = describe_tag(tag)
+        key = (ctx, where, what, why)
+        if key not in flagged:
+            flagged[key] = f"{why} -> " + " -> ".join(chain)
+
+    def judge(ctx, where, origins, chain, text, seen):
+        """classify a value reaching a path sink; returns verdict words"""
+        verdicts = set()
+        for t in sorted(origins):
+            if t[0] == "PKG":
+                verdicts.add("package-dir")
+            elif t[0] == "OPT":
+                if t[1] in path_options:
+                    verdicts.add(f"option:{t[1]}")
+                else:
+                    verdicts.add("FLAGGED")
+                    flag(ctx, where, chain[-1].split(" at ")[0], ("OPT?", f"option --{t[1]} is not a path-carrying option and reaches a file lookup"), [f"{text} at {where}"] + chain)
+            elif t[0] == "P":
+                fid, p = t[1], t[2]
+                if (fid, p) in seen:
+                    continue
+                seen2 = seen | {(fid, p)}
+                f = w.func_by_id[fid]
+                is_self = f.is_method and f.pos and p == f.pos[0]
+                binds = pw.bindings.get((fid, p), {})
+                sub_chain = [f"{fid}({p})"] + chain
+                if is_self:
+                    verdicts.add("self")  # attributes of self are judged through the attribute stores
+                    continue
+                if not binds and fid not in pw.called:
+                    verdicts.add(f"entry-parameter:{fid}({p})")
+                for key in sorted(binds):
+                    bctx, bwhere, bo, btext = binds[key]
+                    if not bo:
+                        continue  # None / number / object: not a path value
+                    verdicts |= judge(bctx, bwhere, bo, sub_chain, btext, seen2)
+                if (fid, p) in pw.defaults and ((fid, p) in pw.omitted or fid not in pw.called):
+                    do, dwhere, dtext = pw.defaults[(fid, p)]
+                    if do:
+                        verdicts |= judge(fid, dwhere, do, sub_chain, f"default {dtext}", seen2)
+            else:
+                verdicts.add("FLAGGED")
+                flag(ctx, where, chain[-1].split(" at ")[0], t, [f"{text} at {where}"] + chain)
+        return verdicts
+
+    for key in sorted(pw.sinks):
+        rec = pw.sinks[key]
+        chain = [f"{rec['what']} at {rec['where']}"]
+        v = judge(rec["ctx"], rec["where"], rec["origins"], chain, rec["text"], frozenset())
+        sites.append({"where": rec["where"], "func": rec["ctx"], "access": rec["what"], "path": rec["text"], "origins": sorted(describe_tag(t) for t in rec["origins"]), "verdict": sorted(v)})
+    for (ctx, where, what, why), detail in sorted(flagged.items()):
+        base = f"{ctx}:E_fs_cwd:{what}"
+        counters[base] = counters.get(base, 0) + 1
+        eid = f"{base}#{counters[base]}"
+        E[eid] = Entropy(eid, "E_fs_cwd", where, detail[:300], False)
+    return sites, dests
+
+
+# ---------------------------------------------------------------------------
 # review list, output
 
 
@@ -1584,10 +2267,20 @@ def load_reviewed():
     except ValueError as e:
         raise GenError(f"{REVIEWED}: {e}")
     ent = d.get("entries", {})
-    for k, v in ent.items():
+    for k, v in list(ent.items()) + list(d.get("path_options", {}).items()):
         if not isinstance(v, str) or len(v.strip()) < 20:
             raise GenError(f"{REVIEWED}: entry {k!r} has no stated reason")
     return ent
+
+
+def load_path_options():
+    """Command-line options (argparse dests) that carry a file path."""
+    if not REVIEWED.exists():
+        return {}
+    try:
+        return dict(json.loads(REVIEWED.read_text()).get("path_options", {}))
+    except ValueError as e:
+        raise GenError(f"{REVIEWED}: {e}")
 
 
 def apply_reviewed(S, E, reviewed):
@@ -1649,6 +2342,8 @@ def generate(repo: Path | None = None):
     an, inside = analyse(w, S)
     E = scan_process_and_entropy(w, S, an, inside)
     st = scan_set_iteration(w, E)
+    path_options = load_path_options()
+    fs_sites, dests = scan_fs_access(w, E, path_options)
     for s in S.values():
         if s.kind not in SURV_KINDS:
             raise GenError(f"unknown survivor kind {s.kind}")
@@ -1677,6 +2372,9 @@ def generate(repo: Path | None = None):
         ],
         "set_typed": {"attrs": sorted(st.set_attrs), "globals": sorted(st.set_globals), "functions": sorted(st.set_funcs), "params": sorted(f"{a}({b})" for a, b in st.set_params)},
         "stale_reviewed_keys": stale,
+        "fs_access_sites": fs_sites,
+        "path_options": {k: {"declared_at": dests.get(k, []), "reason": v} for k, v in sorted(path_options.items())},
+        "stale_path_options": sorted(k for k in path_options if k not in dests),
     }
     return emit_coq(repo, S, E), data
 
@@ -1708,6 +2406,8 @@ def main():
         for e in data["entropy_sites"]:
             flag = ("N" if e["neutralised"] else "-") + ("F" if e["flows_to_output"] else "-")
             print(flag, e["kind"], e["id"], "|", e["where"], "|", e["detail"])
+        for x in data["fs_access_sites"]:
+            print("FS", "FLAG" if "FLAGGED" in x["verdict"] else "ok  ", x["where"], x["func"], x["access"], x["path"], "|", x["origins"], "=>", x["verdict"])
         print("set-typed:", data["set_typed"])
         print("import-only:", data["import_only_functions"], "stale:", data["stale_reviewed_keys"])
     print(f"survivors={len(data['survivors'])} entropy_sites={len(data['entropy_sites'])}")
